@@ -24,8 +24,10 @@ def contract():
             return True
         e = calls[0]
         kw = e.kwargs
-        if set(kw) - ALLOWED_KW or e.args:
-            # an extra argument (e.g. a memo shared between the fields) is a channel from one field's staging to another's
+        extra = [k for k in set(kw) - ALLOWED_KW if not isinstance(kw[k], (bool, int, float, str, type(None)))]
+        if extra or e.args:
+            # an extra argument that is not a plain constant (e.g. a memo created before the loop and shared between the
+            # fields) is a channel from one field's staging to another's
             return False
         fld = st.env["fld"]
         self_ = st.env["__entry__"]["self"] if "__entry__" in st.env else st.env["self"]
